@@ -55,7 +55,7 @@ def stepCore (s : St) (line : String) : St × String :=
   | ["d", k, from_, origin, id, ts, sig, seen] =>
     match parseKind k, from_.toNat?, origin.toNat?, id.toNat?, parseTs ts, parseSeen seen with
     | some k, some from_, some o, some i, some t, some sb =>
-      match parseSig sig o i t with
+      match parseSig sig k o i t with
       | none => (s, "bad-op")
       | some sg =>
         let c : Cmd := { origin := o, id := i, ts := t, sig := sg, seenBy := sb }
@@ -87,6 +87,38 @@ def stepCore (s : St) (line : String) : St × String :=
     else
       ({ s with h := { s.h with f := { s.h.f with seen := [] } }, maybe := l1.map fun e => (e.origin, e.id) },
         s!"n={l1.length - excess}")
+  | ["cleanupat", origin, id, delta] =>
+    -- cleanup at SeenAt(key) + TTL + delta exactly (the function takes the instant as an argument)
+    if !s.maybe.isEmpty then (s, "unsupported-after-eviction") else
+    match origin.toNat?, id.toNat?, delta.toInt? with
+    | some o, some i, some d =>
+      match s.h.f.seen.find? (keyEq · o i) with
+      | none => (s, "nokey")
+      | some e =>
+        let l1 := cleanup s.cfg s.h.f.seen (e.seenAt + sleepTtl s.cfg + d) []
+        if l1.length > s.cfg.maxSize then (s, "unsupported-eviction") else
+        ({ s with h := { s.h with f := { s.h.f with seen := l1 } } }, s!"n={l1.length}")
+    | _, _, _ => (s, "bad-op")
+  | ["edge", side, wh, _] =>
+    -- a valid command whose age lies in the interval the harness can guarantee around the window edge
+    let W : Int := 10000000000
+    let cfg := { s.cfg with window := W, signing := true }
+    let ages : Option (Int × Int) :=
+      match side, wh with
+      | "past", "out" => some (W + 1, W + 1000000000)
+      | "past", "in" => some (W - 2000000, W)
+      | "future", "in" => some (-W, -W + 2000000)
+      | "future", "out" => some (-W - 1, -W - 2000000)
+      | _, _ => none
+    match ages with
+    | none => (s, "bad-op")
+    | some (a1, a2) =>
+      let ts : Nat := 1800000000
+      let c : Cmd := { origin := 4, id := 700000, ts, sig := .signed 0 .sleep 4 700000 ts, seenBy := [] }
+      let r1 := verify idealV cfg ((ts : Int) * 1000000000 + a1) c
+      let r2 := verify idealV cfg ((ts : Int) * 1000000000 + a2) c
+      let show1 (b : Bool) := if b then "acc=1" else "acc=0"
+      (s, if r1 == r2 then s!"anyof {show1 r1} | inconclusive" else "anyof acc=0 | acc=1 | inconclusive")
   | ["stress", _] => (s, "stress acc=1")   -- concurrent deliveries of one fresh valid command: exactly one is accepted
   | ["keys"] =>
     if !s.maybe.isEmpty then (s, "unsupported-after-eviction") else (s, s!"keys={showKeys s.h.f.seen}")
@@ -132,11 +164,14 @@ def specStep (s : SpecSt) (line : String) (implOut : String) : SpecSt × String 
   | ["reset", sg, w, ttl, _], _ =>
     ({ SpecSt.init with signing := sg == "1", wSec := w.toNat?.getD 300, ttlMs := ttl.toNat?.getD 300000 }, "ok")
   | ["adv", d], _ => ({ s with vnow := s.vnow + d.toNat?.getD 0 }, "ok")
+  | ["edge", side, wh, _], [out] =>
+    let want := if wh == "in" then "acc=1" else "acc=0"
+    (s, if out == want || out == "inconclusive" then "ok" else s!"fail timestamp-window-edge-{side}-{wh}-{out}")
   | ["stress", _], out => (s, if out == ["stress", "acc=1"] then "ok" else "fail concurrent-deliveries-not-accepted-exactly-once")
-  | ["d", _, _, origin, id, ts, sig, _], [acc, fwd] =>
+  | ["d", kd, _, origin, id, ts, sig, _], [acc, fwd] =>
     match origin.toNat?, id.toNat?, parseTs ts with
     | some o, some i, some t =>
-      match parseSig sig o i t with
+      match parseSig sig ((parseKind kd).getD .sleep) o i t with
       | none => (s, "ok")
       | some sg =>
         let acted := acc == "acc=1" || fwd != "fwd=-"
@@ -159,7 +194,7 @@ def specStep (s : SpecSt) (line : String) (implOut : String) : SpecSt × String 
       | [_, _, o, i, tl, sl, _] =>
         match o.toNat?, i.toNat?, parseTs tl with
         | some o, some i, some t =>
-          match parseSig sl o i t with
+          match parseSig sl .wake o i t with
           | some sg => !(idealV o i t sg && inWindow s t)
           | none => true
         | _, _, _ => true
